@@ -132,23 +132,33 @@ func (c *checker) CheckEnums(t *parser.Thrift) (warns []string, err error) {
 	return
 }
 
+// checkFieldList reports duplicated IDs and duplicated names in a list of fields.
+// The owner says what the list belongs to: a struct-like, or the arguments or the
+// throws of a function.
+func checkFieldList(fields []*parser.Field, owner, filename string) error {
+	fieldIDs := make(map[int32]bool)
+	names := make(map[string]bool)
+	for _, f := range fields {
+		if fieldIDs[f.ID] {
+			return fmt.Errorf("[IDL grammar error] duplicated field ID %d in %s from file %s",
+				f.ID, owner, filename)
+		}
+		if names[f.Name] {
+			return fmt.Errorf("[IDL grammar error] duplicated field name %q in %s from file %s",
+				f.Name, owner, filename)
+		}
+		fieldIDs[f.ID] = true
+		names[f.Name] = true
+	}
+	return nil
+}
+
 func (c *checker) CheckStructLikes(t *parser.Thrift) (warns []string, err error) {
 	for _, s := range t.GetStructLikes() {
-		fieldIDs := make(map[int32]bool)
-		names := make(map[string]bool)
+		if err = checkFieldList(s.Fields, fmt.Sprintf("%s %q", s.Category, s.Name), t.Filename); err != nil {
+			return
+		}
 		for _, f := range s.Fields {
-			if fieldIDs[f.ID] {
-				err = fmt.Errorf("[IDL grammar error] duplicated field ID %d in %s %q from file %s",
-					f.ID, s.Category, s.Name, t.Filename)
-				return
-			}
-			if names[f.Name] {
-				err = fmt.Errorf("[IDL grammar error] duplicated field name %q in %s %q from file %s",
-					f.Name, s.Category, s.Name, t.Filename)
-				return
-			}
-			fieldIDs[f.ID] = true
-			names[f.Name] = true
 			if f.ID <= 0 {
 				warns = append(warns, fmt.Sprintf("non-positive ID %d of field %q in %q  from file %s",
 					f.ID, f.Name, s.Name, t.Filename))
@@ -204,6 +214,14 @@ func (c *checker) CheckFunctions(t *parser.Thrift) (warns []string, err error) {
 			}
 			if f.Oneway && len(f.Throws) > 0 {
 				err = fmt.Errorf("[IDL grammar error] %s.%s: oneway methods can't throw exceptions from file %s", svc.Name, f.Name, t.Filename)
+				return
+			}
+			// the arguments and the exceptions of a function become the fields of
+			// two generated structs, so the rules for struct fields apply to them
+			if err = checkFieldList(f.Arguments, fmt.Sprintf("arguments of %q.%q", svc.Name, f.Name), t.Filename); err != nil {
+				return
+			}
+			if err = checkFieldList(f.Throws, fmt.Sprintf("throws of %q.%q", svc.Name, f.Name), t.Filename); err != nil {
 				return
 			}
 			for _, a := range f.Arguments {
